@@ -173,6 +173,37 @@ fn check_json_kind(ctx: &Ctx, kind: &str, want_status: u16, val: &B, r: Result<G
     samples.offer(|| json!({"kind": kind, "value": serde_json::to_value(val).unwrap(), "observed": got_json(&r)}));
 }
 
+/// A value whose serialisation fails after part of the output has been produced.
+#[derive(Serialize, JsonSchema)]
+struct HalfSerialisable {
+    head: String,
+    #[schemars(with = "String")]
+    bad: Unserialisable,
+    tail: u32,
+}
+struct Unserialisable;
+impl Serialize for Unserialisable {
+    fn serialize<S: serde::Serializer>(&self, _s: S) -> Result<S::Ok, S::Error> {
+        Err(serde::ser::Error::custom("this value cannot be serialised"))
+    }
+}
+
+/// A response that cannot be produced must be an error (not a panic), and must leave nothing
+/// behind that shows up in the responses produced afterwards on the same thread.
+fn unserialisable_response(ctx: &Ctx, cn: &Cn) {
+    cn.evals.fetch_add(1, Ordering::Relaxed);
+    let r = std::panic::catch_unwind(|| HttpResponseOk(HalfSerialisable { head: "partial output".into(), bad: Unserialisable, tail: 1 }).to_result().map(|_| ()));
+    let ok = matches!(r, Ok(Err(_)));
+    if !ok {
+        ctx.report(Violation {
+            sig: json!({"kind":"json_response","response_kind":"ok","why":["a value that cannot be serialised did not produce an error"]}),
+            case: json!({"kind":"input","seam":"to_result","response_kind":"unserialisable"}),
+            expected: json!("Err(HttpError)"),
+            observed: json!(match r { Ok(Ok(())) => "a response", Ok(Err(_)) => "error", Err(_) => "panic" }),
+        });
+    }
+}
+
 fn run_body_kind(ctx: &Ctx, kind: &str, val: &B, cn: &Cn, samples: &Samples) {
     let v = val.clone();
     match kind {
@@ -517,6 +548,9 @@ mod live12 {
         http_response_temporary_redirect(q.into_inner().loc.unwrap_or_default())
     }
 
+    async fn unser(_r: Rq, _q: Q) -> Result<HttpResponseOk<super::HalfSerialisable>, HttpError> {
+        Ok(HttpResponseOk(super::HalfSerialisable { head: "partial output".into(), bad: super::Unserialisable, tail: 1 }))
+    }
     pub fn run(ctx: &Ctx, cn: &Cn, samples: &Samples) -> Value {
         let mut api = ApiDescription::<()>::new();
         let ct = "application/json";
@@ -530,8 +564,10 @@ mod live12 {
         api.register(ApiEndpoint::new("headers".into(), headers, m.clone(), ct, "/headers", all())).unwrap();
         api.register(ApiEndpoint::new("found".into(), found, m.clone(), ct, "/found", all())).unwrap();
         api.register(ApiEndpoint::new("see_other".into(), see_other, m.clone(), ct, "/see_other", all())).unwrap();
-        api.register(ApiEndpoint::new("temp".into(), temp, m, ct, "/temp", all())).unwrap();
-        let srv = LiveServer::start(api, (), ServerOpts::default()).unwrap_or_else(|e| machinery_failure(&e));
+        api.register(ApiEndpoint::new("temp".into(), temp, m.clone(), ct, "/temp", all())).unwrap();
+        api.register(ApiEndpoint::new("unser".into(), unser, m, ct, "/unser", all())).unwrap();
+        // one worker thread: a request sees whatever the previous one left behind on that thread
+        let srv = LiveServer::start(api, (), ServerOpts { rt: RtKind::CurrentThread, ..Default::default() }).unwrap_or_else(|e| machinery_failure(&e));
         let mut ka = KeepAlive::new(srv.addr);
         let values = ["", "plain", "q\"uote\\ and / slash", "é\u{1F600}\u{2028}", "line\nbreak"];
         let locs = ["/next", "/p?q=1#f", "/caf\u{e9}", "/with\ttab", "https://example.com/x", "/bad\nlocation", "/nul\u{0}"];
@@ -541,6 +577,13 @@ mod live12 {
             for (path, status, num) in [("/ok", 200u16, Some(u64::MAX)), ("/created", 201, Some(1)), ("/accepted", 202, Some(2)), ("/deleted", 204, None), ("/updated", 204, None), ("/headers", 200, Some(3))] {
                 n += 1;
                 cn.evals.fetch_add(1, Ordering::Relaxed);
+                // every second request follows one whose response could not be serialised (a 500)
+                if n % 2 == 0 {
+                    let r = ka.roundtrip(&get("/unser?v=x", ""), false, t);
+                    if !matches!(&r, ReadOutcome::Resp(x) if x.status >= 500) {
+                        ctx.report(Violation { sig: json!({"kind":"wire_response","path":"/unser","why":["unserialisable value not answered with a 5xx"]}), case: json!({"kind":"live_request","seam":"wire","path":"/unser"}), expected: json!("5xx"), observed: json!(format!("{r:?}")) });
+                    }
+                }
                 let header_legal = legal_header_value(v.as_bytes());
                 let r = ka.roundtrip(&get(&format!("{path}?v={}", pct(v.as_bytes())), ""), false, t);
                 let case = json!({"kind":"live_request","seam":"wire","path": path, "value": v});
@@ -631,6 +674,7 @@ fn main() {
                 "redirect" => run_redirects(ctx, &cn, &smp),
                 _ => {
                     if case.get("value").is_some() {
+                        unserialisable_response(ctx, &cn);
                         let mut v: B = serde_json::from_value(case["value"].clone()).unwrap();
                         if let Some(bits) = case["f_bits"].as_u64() {
                             v.f = f64::from_bits(bits);
@@ -649,7 +693,11 @@ fn main() {
     let nv = vals.len();
     let kinds = ["ok", "created", "accepted", "headers_ok"];
     par_for(nv, ncpu(), ctx.seed, |i| {
-        for k in kinds {
+        for (ki, k) in kinds.iter().enumerate() {
+            // sequences: a failed serialisation right before a good one, on the same thread
+            if (i + ki) % 4 == 0 {
+                unserialisable_response(&ctx, &cn);
+            }
             run_body_kind(&ctx, k, &vals[i], &cn, &samples);
         }
     });
